@@ -960,7 +960,24 @@ pub fn clock_link_case(r: &mut Rng) -> Result<u64, String> {
 		id
 	};
 	let max_tps = r.f64_in(5.0, 400.0);
-	let speed = Value::FromModulator { id, mapping: Mapping { input_range: (0.0, 1.0), output_range: (ClockSpeed::TicksPerSecond(0.0), ClockSpeed::TicksPerSecond(max_tps)), easing: Easing::Linear } };
+	// the speed range is given in any of the three units (or in two different ones): a mapping interpolates in the unit of the
+	// range's second end, so a range in seconds per tick is linear in the tick period, not in the tick rate
+	let unit = r.below(4);
+	let slow_tps = r.f64_in(2.0, 20.0);
+	let (range, unit_name): ((ClockSpeed, ClockSpeed), &str) = match unit {
+		0 => ((ClockSpeed::TicksPerSecond(0.0), ClockSpeed::TicksPerSecond(max_tps)), "0 .. max ticks per second"),
+		1 => ((ClockSpeed::TicksPerMinute(0.0), ClockSpeed::TicksPerMinute(max_tps * 60.0)), "0 .. 60 max ticks per minute"),
+		2 => ((ClockSpeed::SecondsPerTick(1.0 / slow_tps), ClockSpeed::SecondsPerTick(1.0 / max_tps)), "1/slow .. 1/max seconds per tick"),
+		_ => ((ClockSpeed::TicksPerSecond(slow_tps), ClockSpeed::SecondsPerTick(1.0 / max_tps)), "slow ticks per second .. 1/max seconds per tick"),
+	};
+	let tps_at = move |m: f64| -> f64 {
+		let m = m.clamp(0.0, 1.0);
+		match unit {
+			0 | 1 => max_tps * m,
+			_ => 1.0 / (1.0 / slow_tps + (1.0 / max_tps - 1.0 / slow_tps) * m),
+		}
+	};
+	let speed = Value::FromModulator { id, mapping: Mapping { input_range: (0.0, 1.0), output_range: range, easing: Easing::Linear } };
 	let mut clock = rig.mgr.add_clock(speed).map_err(|_| "clock")?;
 	clock.start();
 	let stamps = Arc::new(Stamps::default());
@@ -984,11 +1001,11 @@ pub fn clock_link_case(r: &mut Rng) -> Result<u64, String> {
 		let now = t.ticks as f64 + t.fraction;
 		let m = log.lock().unwrap().rows[k].2[0];
 		let inc = now - prev_t;
-		let want = dt * max_tps * m.clamp(0.0, 1.0);
-		let lagged = dt * max_tps * prev_m.clamp(0.0, 1.0);
+		let want = dt * tps_at(m);
+		let lagged = dt * tps_at(prev_m);
 		if (inc - want).abs() > 1e-9 * (1.0 + now) {
 			let note = if (inc - lagged).abs() <= 1e-9 * (1.0 + now) { " (that is the modulator's value of the previous chunk: one chunk late)" } else { "" };
-			return Err(format!("chunk {}: a clock whose speed is mapped 0..1 -> 0..{} ticks/s from a modulator advanced by {} ticks in {} s; the modulator's value in this chunk is {}, i.e. {} ticks{} (buffer {}, {})", k + 1, max_tps, inc, dt, m, want, note, ibs, if moving_lfo { "LFO" } else { "tweener" }));
+			return Err(format!("chunk {}: a clock whose speed is mapped 0..1 -> {} (max {} ticks/s, slow {} ticks/s) from a modulator advanced by {} ticks in {} s; the modulator's value in this chunk is {}, i.e. {} ticks{} (buffer {}, {})", k + 1, unit_name, max_tps, slow_tps, inc, dt, m, want, note, ibs, if moving_lfo { "LFO" } else { "tweener" }));
 		}
 		prev_t = now;
 		prev_m = m;
